@@ -47,7 +47,30 @@ git -C /repo worktree remove --force "$WT"
 echo "applies=$APPLIES suite_with_patch=$SUITE demo_with_patch=$DEMO_WITH demo_without_patch=$DEMO_WITHOUT"
 DETECTED=""
 MISSED=""
-if [ "$APPLIES" = yes ]; then
+if [ "$APPLIES" = yes ] && [ -n "${SEED_SCRATCH:-}" ]; then
+  # Scratch mode: /repo is left alone (a sweep or fuzz campaign may be building from it). A worktree of
+  # /repo and a copy of the harness with rewritten path dependencies live under /tmp/seedscratch and are
+  # reused between calls (incremental builds); remove the directory when the round is over.
+  S=/tmp/seedscratch
+  mkdir -p "$S/root/evidence" "$S/root/replays"
+  [ -d "$S/repo" ] || git -C /repo worktree add -q --detach "$S/repo" HEAD || exit 2
+  git -C "$S/repo" checkout -q --detach "$(git -C /repo rev-parse HEAD)"; git -C "$S/repo" checkout -q -- .
+  rsync -a --exclude target --exclude target-fp --exclude '*.log' /verif/harness/ "$S/harness/"
+  sed -i "s#/repo#$S/repo#g" "$S/harness/Cargo.toml" "$S/harness/build.rs"
+  cp /verif/known_findings.json "$S/root/"; rm -rf "$S/root/regress"; cp -r /verif/regress "$S/root/regress"
+  git -C "$S/repo" apply "$OUT/patch.diff"
+  if ( cd "$S/harness" && cargo build --release --offline -q --target-dir target 2>"$S/build.log" && cargo build --release --offline -q --features fixed_point --target-dir target-fp 2>"$S/build-fp.log" ); then
+    for P in $PROPS; do
+      VERIF_ROOT="$S/root" EGVERIF_BIN="$S/harness/target/release/egverif" EGVERIF_FP_BIN="$S/harness/target-fp/release/egverif" \
+        "$S/harness/target/release/egverif" run "$P" quick > "$OUT/check_$P.log" 2>&1; RC=$?
+      if [ $RC -eq 1 ] && grep -q "^VIOLATION property=$P" "$OUT/check_$P.log"; then DETECTED="$DETECTED $P"; else MISSED="$MISSED $P(rc=$RC)"; fi
+    done
+  else
+    echo "scratch harness build failed"; tail -5 "$S/build.log" "$S/build-fp.log"; MISSED="$PROPS(build)"
+  fi
+  git -C "$S/repo" checkout -q -- .
+  rm -f "$S/root/replays/"*.json
+elif [ "$APPLIES" = yes ]; then
   if [ -n "$(git -C /repo status --porcelain --untracked-files=no)" ]; then echo "/repo is not clean; refusing to apply"; exit 2; fi
   git -C /repo apply "$OUT/patch.diff"
   for P in $PROPS; do
@@ -82,7 +105,7 @@ meta = {
   "detected_by": det.split(),
   "not_detected_by": miss.split(),
   "violation_signatures": sigs,
-  "what_was_run": "git -C /repo apply patch.diff; ./check <property> quick for each listed property; git -C /repo checkout -- .",
+  "what_was_run": ("scratch mode (SEED_SCRATCH=1): worktree of /repo at HEAD plus a copy of /verif/harness with rewritten path dependencies under /tmp/seedscratch; git apply patch.diff there; both harness builds; egverif run <property> quick for each listed property; git checkout -- ." if os.environ.get("SEED_SCRATCH") else "git -C /repo apply patch.diff; ./check <property> quick for each listed property; git -C /repo checkout -- ."),
 }
 json.dump(meta, open(os.path.join(out, 'meta.json'), 'w'), indent=1)
 EOF
